@@ -530,13 +530,13 @@ def display(style, name, value):
     position = style.specified['position']
     if position in ('absolute', 'fixed') or float_ != 'none' or (
             style.is_root_element):
-        if value == ('inline-table',):
-            return ('block', 'table')
-        elif len(value) == 1 and value[0].startswith('table-'):
+        if len(value) == 1 and value[0].startswith('table-'):
             return ('block', 'flow')
         elif value[0] == 'inline':
             if 'list-item' in value:
                 return ('block', 'flow', 'list-item')
+            elif value[1] in ('table', 'flex', 'grid'):
+                return ('block', value[1])
             else:
                 return ('block', 'flow')
     return value
